@@ -25,7 +25,7 @@ EXTRA = {'bio-seq/src/codec': ['C05', 'C07', 'C09', 'C12', 'C19', 'C20', 'C01'],
          'bio-seq/src/seq.rs': ['C01', 'C19', 'C18'], 'bio-seq/src/seq/iterators.rs': ['C01', 'C11'], 'bio-seq/src/translation': ['C13', 'C14', 'C15'], 'bio-seq/src/lib.rs': ['C07', 'C20', 'C16']}
 env = dict(os.environ, VERIF_EVIDENCE_DIR=os.path.join(ROOT, 'work', 'seed-evidence'))
 rows = []
-for d in sorted(glob.glob('/tmp/mut_%s_out/refactor_*.diff' % wid)):
+for d in sorted(glob.glob('/tmp/mut_%s_out/refactor_*.diff' % wid) or glob.glob(os.path.join(ROOT, 'seeded', '_refactors', wid, 'refactor_*.diff'))):
     files = re.findall(r'^\+\+\+ b/(\S+)', open(d).read(), re.M)
     props = set()
     for fl in files:
